@@ -48,6 +48,10 @@ def run(idx, rep, tier):
         if not in_run:
             continue
         okr = K.owner_of(idx, fi, {"CsvPath.next"}) is not None or (fi.cls == "CsvPath" and fi.name == "collecting")
+        if not okr and not K.callers_of(idx, fi) and not fi.name.startswith("__"):
+            # a function nothing in the package calls (an inspection helper for the user) is not part of any run
+            rep.ok("R2", f"{fi.file}::{fi.qual} reads collecting", "not reachable from a run: no call site in the package", K.where(fi, n))
+            continue
         rep.check(okr, "R2", f"{fi.file}::{fi.qual} reads collecting", f"`{unparse(n)}`: only the generator's unmatched step may depend on whether the caller is collect(); "
                   "anything else makes collect(), next() and fast_forward() different runs", K.where(fi, n))
     rep.floor("R2", 1, "reads of collecting")
